@@ -8,9 +8,6 @@ VERIF = os.path.dirname(os.path.dirname(os.path.abspath(__file__)))
 CHECKS = {}
 
 NOT_APPLICABLE = {
-    'C16': 'numerical optimisation (scipy curve_fit + bootstrap over reals): '
-           'no finite state machine or rational core for TLA+/TLC to decide; '
-           'see DESIGN.md section 5',
 }
 
 ALL = [f'C{i:02d}' for i in range(1, 21)]
@@ -63,6 +60,30 @@ check('C04', 'model_checking',
       'decoder.',
       'TLA+ spec (Pauli.tla StabGroup/Effect) + TLC validation of exhaustive '
       'recorded verdicts',
+      'tlc-data')
+
+check('C16', 'exploration',
+      'Threshold.tla owns what is discrete in C16: the documented ansatz in '
+      'exact integer arithmetic (nu = 1), the box of well-conditioned planted '
+      'cases, the layouts (row orders, splits over files, path orders) and '
+      'the case analysis of get_fit_status; TLC checks conditioning, monotone '
+      'curves crossing at p_th only and success <=> plausible on 20 480 '
+      'entries, and emits the domain.  Every case is materialised as real '
+      'result files lying on the ansatz, in several layouts; the real '
+      'Analysis.calculate_thresholds estimates; the real get_fit_status is '
+      'called on every grid entry; C16_Data.tla (TLC) judges the reported '
+      'numbers (threshold within 5 reported standard errors or 1% of the '
+      'planted one, inside its confidence interval and the data range, '
+      'flagged successful, equal under every layout).  The optimiser '
+      '(curve_fit + bootstrap) is observed, not modelled: this is a grid '
+      'exploration, not a proof about the optimiser.',
+      'DESIGN.md 4/C16, 5',
+      'Trusted: TLC; the float evaluation of the ansatz for nu != 1 in the '
+      'harness (for nu = 1 TLC re-derives the planted counts); the tolerance '
+      'stated in C16_Data.tla.',
+      'TLA+ model of the ansatz / planted box / status case analysis checked '
+      'by TLC + spec->code replay on planted result files, reported numbers '
+      'judged by TLC (optimiser observed only)',
       'tlc-data')
 
 check('C17', 'model_checking',
